@@ -453,8 +453,12 @@ class G:
             c = {'insert': ns_coll, 'documents': [{self.field(): self.literal(w + '.documents') for _ in range(self.r.randint(0, 3))} for _ in range(self.r.randint(0, 3))], 'ordered': True}
         elif verb == 'update':
             c = {'update': ns_coll, 'updates': [{'q': self.filter(w + '.q'), 'u': self.update_doc(w + '.u'), 'multi': False, 'upsert': False} for _ in range(self.r.randint(1, 2))], 'ordered': True}
+            if self.r.random() < 0.4:      # filters for the positional operators: query documents inside the statement
+                c['updates'][-1]['arrayFilters'] = [{'elem.' + self.field(): self.literal(w + '.arrayFilters')}]; self.hit('stmt_arrayFilters')
         elif verb == 'updatepipe':
             c = {'update': ns_coll, 'updates': [{'q': self.filter(w + '.q'), 'u': self.update_pipeline(w + '.u')}], 'ordered': True}
+            if self.r.random() < 0.5:      # the constants document of a pipeline-style update (referenced as $$name from u): user literals like any other
+                c['updates'][0]['c'] = {'v%d' % j: self.literal(w + '.c') for j in range(self.r.randint(1, 2))}; self.hit('stmt_c')
         elif verb == 'delete':
             c = {'delete': ns_coll, 'deletes': [{'q': self.filter(w + '.q'), 'limit': RawNum(self.r.choice(['0', '1']))} for _ in range(self.r.randint(1, 2))], 'ordered': True}
         elif verb == 'count':
